@@ -8,7 +8,7 @@ func init() {
 		Jobs: func(tier string) []sym.Job {
 			th := tier == "thorough"
 			js := []sym.Job{{Harness: "VH_C03_table_selfcheck", Params: map[string]int{}}}
-			stepN := ints(1, 2, 3, 7)
+			stepN := ints(1, 2, 3)
 			wholeN := ints(0, 1)
 			ps := ints(0, 1, 2, 3, 250, 251, 252)
 			ls := rng(0, 14)
@@ -47,11 +47,12 @@ func init() {
 			return js
 		},
 		Bounds: map[string]string{
-			"quick":    "CRC step lemma: arbitrary 16-bit state x arbitrary next byte at every index of buffers of 1,2,3,7 bytes (no bound on message length for the lemma itself); whole-function comparison for lengths 0..1 (impl-vs-table equivalence over 2 or more symbolic bytes does not finish within the quick time limit); 21 RTU frame encoders with payload lengths {0,1,2,3,250,251,252}; CRC-verifying parsers on every frame of length 0..14 with every trailer value",
+			"quick":    "CRC step lemma: arbitrary 16-bit state x arbitrary next byte at every index of buffers of 1,2,3 bytes (no bound on message length for the lemma itself); whole-function comparison for lengths 0..1 (impl-vs-table equivalence over 2 or more symbolic bytes does not finish within the quick time limit); 21 RTU frame encoders with payload lengths {0,1,2,3,250,251,252}; CRC-verifying parsers on every frame of length 0..14 with every trailer value",
 			"thorough": "step lemma on buffers of 1,2,3,7,64,256 bytes; whole-function lengths 0..2; encoder payload lengths 0..253; CRC-verifying parsers on lengths 0..40 and 255..258",
 		},
 		Outside:     []string{"whole-function equivalence beyond the listed lengths rests on the induction step (k=1 induction over the byte loop, structural: the loop carries exactly (crc, index))", "CRC-verifying parsers on frame lengths not listed"},
 		Assumptions: []string{"induction principle over the byte loop of CRC16 (meta-argument); the engine checks that the loop header carries exactly two values"},
+		TimeoutMS:   240000, // the step lemma needs 2-5 s per query on an idle machine; keep a wide margin under load
 		MinCovers:   []string{"selfcheck", "step", "exit", "whole", "frame", "bad-crc", "good-crc", "too-short"},
 	})
 }
